@@ -469,6 +469,8 @@ func Register(names ...string) error {
 			p = ExtNestedProfile{}
 		case MixinName:
 			p = NumberedProfile{Name: MixinName, Base: 3}
+		case ExtWideName:
+			p = ExtWideProfile{}
 		default:
 			return errors.New("unknown extension profile " + n)
 		}
@@ -478,6 +480,64 @@ func Register(names ...string) error {
 		registered[n] = true
 	}
 	return nil
+}
+
+// ---- a WIDE extension of profile 2: twenty optional claims of its own, so that the
+// merged map of a valid claims-set has 7 .. 30 entries and crosses the one-byte
+// map-head boundary at 23 / 24 (seeded fault C09-v) -----------------------------------
+
+const ExtWideName = "http://example.com/psa-wide/1.0.0"
+
+type ExtWideClaims struct {
+	psatoken.P2Claims
+	W00 *string `cbor:"-75700,keyasint,omitempty" json:"w00,omitempty"`
+	W01 *string `cbor:"-75701,keyasint,omitempty" json:"w01,omitempty"`
+	W02 *string `cbor:"-75702,keyasint,omitempty" json:"w02,omitempty"`
+	W03 *string `cbor:"-75703,keyasint,omitempty" json:"w03,omitempty"`
+	W04 *string `cbor:"-75704,keyasint,omitempty" json:"w04,omitempty"`
+	W05 *string `cbor:"-75705,keyasint,omitempty" json:"w05,omitempty"`
+	W06 *string `cbor:"-75706,keyasint,omitempty" json:"w06,omitempty"`
+	W07 *string `cbor:"-75707,keyasint,omitempty" json:"w07,omitempty"`
+	W08 *string `cbor:"-75708,keyasint,omitempty" json:"w08,omitempty"`
+	W09 *string `cbor:"-75709,keyasint,omitempty" json:"w09,omitempty"`
+	W10 *string `cbor:"-75710,keyasint,omitempty" json:"w10,omitempty"`
+	W11 *string `cbor:"-75711,keyasint,omitempty" json:"w11,omitempty"`
+	W12 *string `cbor:"-75712,keyasint,omitempty" json:"w12,omitempty"`
+	W13 *string `cbor:"-75713,keyasint,omitempty" json:"w13,omitempty"`
+	W14 *string `cbor:"-75714,keyasint,omitempty" json:"w14,omitempty"`
+	W15 *string `cbor:"-75715,keyasint,omitempty" json:"w15,omitempty"`
+	W16 *string `cbor:"-75716,keyasint,omitempty" json:"w16,omitempty"`
+	W17 *string `cbor:"-75717,keyasint,omitempty" json:"w17,omitempty"`
+	W18 *string `cbor:"-75718,keyasint,omitempty" json:"w18,omitempty"`
+	W19 *string `cbor:"-75719,keyasint,omitempty" json:"w19,omitempty"`
+}
+
+// Wide gives access to the twenty extension claims.
+func (o *ExtWideClaims) Wide() []**string {
+	return []**string{&o.W00, &o.W01, &o.W02, &o.W03, &o.W04, &o.W05, &o.W06, &o.W07, &o.W08, &o.W09,
+		&o.W10, &o.W11, &o.W12, &o.W13, &o.W14, &o.W15, &o.W16, &o.W17, &o.W18, &o.W19}
+}
+
+func (o *ExtWideClaims) Validate() error { return psatoken.ValidateClaims(o) }
+
+func (o ExtWideClaims) MarshalCBOR() ([]byte, error) { return encoding.SerializeStructToCBOR(EM, &o) }
+func (o *ExtWideClaims) UnmarshalCBOR(data []byte) error {
+	return encoding.PopulateStructFromCBOR(DM, data, o)
+}
+func (o ExtWideClaims) MarshalJSON() ([]byte, error) { return encoding.SerializeStructToJSON(&o) }
+func (o *ExtWideClaims) UnmarshalJSON(data []byte) error {
+	return encoding.PopulateStructFromJSON(data, o)
+}
+
+type ExtWideProfile struct{}
+
+func (ExtWideProfile) GetName() string { return ExtWideName }
+func (ExtWideProfile) GetClaims() psatoken.IClaims {
+	p := eat.Profile{}
+	if err := p.Set(ExtWideName); err != nil {
+		panic(err)
+	}
+	return &ExtWideClaims{P2Claims: psatoken.P2Claims{Profile: &p, SwComponents: &psatoken.SwComponents[*psatoken.SwComponent]{}, CanonicalProfile: ExtWideName}}
 }
 
 // ---- generic numbered profiles (for registry histories) ------------------------------
